@@ -4,9 +4,10 @@ CONSTANTS
   RSet = {0, 1, 2, 3, 4, 5, 6, 7, 8, 9, 10, 11, 12, 13, 14, 15, 16, 17}
   KSet = {0, 1, 2, 3, 4, 5, 6, 7, 8, 9, 10, 11, 12, 13, 14, 15, 16, 17}
   CSet = {0, 1, 2, 3, 4, 5, 6, 7, 8, 9, 10, 11, 12, 13, 14, 15, 16, 17}
-  XRC = {}
-  XK = {}
+  XRC = {1, 2, 5}
+  XK = {31, 32, 33, 63, 64, 65}
   DSet = {0, 1, 2, 3, 4, 5, 6, 7, 8, 9, 10, 11, 12, 13, 14, 15, 16, 17}
+  BSet = {31, 32, 33, 63, 64, 65}
   SliceSet = {1, 2, 3, 4}
   SortCols = {1, 2, 3, 4}
   ESet = {0, 1, 2, 3, 4, 5, 6, 7, 8, 9, 10, 11, 12, 13, 14, 15, 16, 17}
